@@ -963,6 +963,19 @@ example :
     (step c s (.disc none (some (0, none)) none [0])).2 = .discOk [(0, ⟨0, 0, 600⟩)] none := by
   decide
 
+/-- the per-cookie clause of the Spec fires on the behaviour it is meant to exclude: cookie 0 is
+presented a second time (2 cookies issued ≤ capacity 2, so nothing can have been evicted) and the
+registration delivered with it comes back — and it does not fire on the model's own answer -/
+example :
+    let c : Cfg := ⟨600, 2400, 3, 8, 2⟩
+    let r0 := Ref.init
+    let r1 := (specStep c r0 (.reg 0 0 (some 600)) (.regOk 600)).1
+    let r2 := (specStep c r1 (.disc none none none [0]) (.discOk [(0, ⟨0, 0, 600⟩)] none)).1
+    let r3 := (specStep c r2 (.disc none (some (0, none)) none []) (.discOk [] none)).1
+    (specStep c r3 (.disc none (some (0, none)) none [0]) (.discOk [(0, ⟨0, 0, 600⟩)] none)).2 = "FAIL:cookie_once_replayed" ∧
+    (specStep c r3 (.disc none (some (0, none)) none []) (.discOk [] none)).2 = "ok" := by
+  decide
+
 end C51
 
 #print axioms C51.spec_accepts_model
